@@ -56,7 +56,10 @@ def flat_model(rnd):
                             # collections below a Union / Optional, two levels deep: the failure is far below the Union's node
                             ('optional', ('dict', 3, 'str', ('dict', 3, 'str', 'int'))),
                             ('union', [('dict', 3, 'str', ('dict', 3, 'str', 'int')), ('list', 0, 'int')]),
-                            ('optional', ('list', 0, ('dict', 3, 'str', 'float'))), ('dict', 3, 'str', ('list', 0, 'int'))] +
+                            ('optional', ('list', 0, ('dict', 3, 'str', 'float'))), ('dict', 3, 'str', ('list', 0, 'int')),
+                            # Unions with many members: every member's complaint is listed, the one about the corrupted place too
+                            ('union', ['int', 'float', 'bool', ('list', 0, 'int'), ('dict', 3, 'str', ('dict', 3, 'str', 'int'))])] +
+                           ([('union', ['int', 'float', 'bool', ('class', names[i - 1])])] if i > 0 else []) +
                            ([('class', names[i - 1])] if i > 0 else []))
             params.append({'name': pn, 'type': t, 'required': rnd.random() < 0.6})
         if not any(p['required'] for p in params):
@@ -169,7 +172,10 @@ def gen_valid(rnd, specs, t):
     if t[0] == 'optional':
         return gen_valid(rnd, specs, t[1])
     if t[0] == 'union':
-        m = t[1][1] if rnd.random() < 0.7 else t[1][0]
+        if len(t[1]) > 2:
+            m = t[1][-1] if rnd.random() < 0.7 else rnd.choice(t[1])
+        else:
+            m = t[1][1] if rnd.random() < 0.7 else t[1][0]
         if isinstance(m, tuple) and m[0] == 'list':
             return yaml.SequenceNode('tag:yaml.org,2002:seq', [gen_valid(rnd, specs, m[2]) for _ in range(rnd.randrange(2, 5))])
         return gen_valid(rnd, specs, m)
